@@ -190,6 +190,11 @@ def run(ctx, rep) -> None:
     who_may_write(ctx, rep, "C03.3", only_kinds={"factor_matrices_eigenvectors", "corrected_eigenvalues", "factor_matrices"}, include_params=False)
     # ---- C03.4
     dtype_rules(ctx, rep, "C03.4")
+    from .arith import factor_arithmetic, soap_arithmetic
+
+    rep.rule("C03.6", "arithmetic of SOAP: C <- C + rot(G)^2 | beta2*C + (1-beta2)*rot(G)^2; direction = rot_back(rot(G) / (C/bias_correction2 + eps)^(1/root)); factor accumulation (exact term comparison)")
+    soap_arithmetic(ctx, rep, "C03.6")
+    factor_arithmetic(ctx, rep, "C03.6")
     rep.assume("orthonormality, diagonalisation and that the QR result is the orthogonal-iteration update are numerical and NOT decided")
 
 
